@@ -144,6 +144,52 @@ def check_hex_variants(ctx, t, a, rng):
                      f'{type(exc).__name__}: {exc}')
 
 
+def check_spellings(ctx, t, a, tm):
+    """The same message through other spellings of the same call: attributes in any keyword order
+    (constructor, from_dict, from_str), time given positionally to from_bytes/from_hex, a valid
+    message built with skip_checks=True."""
+    import itertools
+    ref = midi1.encode(t, a)
+    base = Message(t, time=tm, **a)
+    case = lambda v: {'kind': 'spelling', 'type': t, 'attrs': a, 'variant': v}  # noqa: E731
+    items = list(a.items()) + [('time', tm)]
+    for perm in itertools.islice(itertools.permutations(items), 0, 24):
+        kw = dict(perm)
+        for how in ('ctor', 'from_dict', 'skip_checks'):
+            try:
+                if how == 'ctor':
+                    m = Message(t, **kw)
+                elif how == 'from_dict':
+                    m = Message.from_dict({**kw, 'type': t})
+                else:
+                    m = Message(t, skip_checks=True, **{k: (list(v) if k == 'data' else v) for k, v in kw.items()})
+                ok = m.bytes() == ref and m == base and Message.from_bytes(m.bytes(), time=tm) == base and len(m) == len(ref)
+                ctx.check('enc==ref (any spelling)', ok, f'spelling:{how}:{t}', lambda: case([how, [k for k, _ in perm]]),
+                          lambda: {'bytes': m.bytes()[:12], 'ref': ref[:12]})
+            except Exception as exc:
+                ctx.fail('enc==ref (any spelling)', f'spelling-raised:{how}:{t}', lambda: case([how, [k for k, _ in perm]]),
+                         f'{type(exc).__name__}: {exc}')
+        if type(tm) is int and t != 'sysex':
+            text = t + ' ' + ' '.join(f'{k}={v}' for k, v in perm)
+            try:
+                m = Message.from_str(text)
+                ctx.check('enc==ref (any spelling)', m.bytes() == ref and m == base, f'spelling:from_str:{t}',
+                          lambda: case(['from_str', text]), lambda: m.bytes()[:12])
+            except Exception as exc:
+                ctx.fail('enc==ref (any spelling)', f'spelling-raised:from_str:{t}', lambda: case(['from_str', text]), repr(exc))
+    # time as a positional argument
+    for tpos in (tm, 480, 0.75):
+        try:
+            d = Message.from_bytes(ref, tpos)
+            ctx.check('time passthrough', _eq_typed(d, t, a, tpos), f'positional-time:from_bytes:{t}', lambda: case(['from_bytes', tpos]),
+                      lambda: repr(d)[:160])
+            d = Message.from_hex(' '.join('%02X' % x for x in ref), tpos)
+            ctx.check('time passthrough', _eq_typed(d, t, a, tpos), f'positional-time:from_hex:{t}', lambda: case(['from_hex', tpos]),
+                      lambda: repr(d)[:160])
+        except Exception as exc:
+            ctx.fail('time passthrough', f'positional-time-raised:{t}', lambda: case(['positional', tpos]), repr(exc))
+
+
 def check_containers(ctx, t, a):
     """from_bytes accepts any sequence of integers: lists, tuples, bytes-like objects and
     buffer-protocol objects whose items are wider than a byte."""
@@ -181,7 +227,12 @@ def phase_a(ctx):
             ctx.put_sample({'type': t, **a, 'bytes': midi1.encode(t, a)})
             check_hex_variants(ctx, t, dict(a), ctx.rng)
             check_containers(ctx, t, dict(a))
+            check_spellings(ctx, t, dict(a), it[i % len(it)])
     check_containers(ctx, 'sysex', {'data': tuple(range(100))})
+    if sh == 0:
+        for t in midi1.TYPES:
+            for a in list(gen.boundary_attr_sets(t))[:4]:
+                check_spellings(ctx, t, dict(a), 3)
     ctx.count('cases', sum(per_type.values()))
     ctx.nontrivial(None, sum(per_type.values()))
     ctx.extra('messages_per_type', per_type)
@@ -314,6 +365,9 @@ def replay(ctx, case):
         check_message(ctx, case['type'], a, case['ti'], case['tf'])
     elif k == 'hexvar':
         check_hex_variants(ctx, case['type'], a, ctx.rng)
+    elif k == 'spelling':
+        check_spellings(ctx, case['type'], a, 3)
+        return
     elif k == 'container':
         check_containers(ctx, case['type'], a)
         return
